@@ -111,19 +111,37 @@ impl From<f32> for Q {
 }
 fn q_pow(a: &Q, b: &Q) -> Q {
     let (Some(x), Some(y)) = (a.r(), b.r()) else { return Q::Undef };
-    if !y.is_integer() {
+    // exponent p/q in lowest terms with a small denominator: exact iff numerator and
+    // denominator of the base are perfect q-th powers (and the base is not negative for even q)
+    let (Some(p), Some(q)) = (y.numer().to_i64(), y.denom().to_u32()) else { return Q::Undef };
+    if p.abs() > 64 || q == 0 || q > 6 {
         return Q::Undef;
     }
-    let Some(e) = y.numer().to_i64() else { return Q::Undef };
-    if e.abs() > 64 {
-        return Q::Undef;
-    }
-    if e >= 0 {
-        Q::R(num::pow(x.clone(), e as usize))
-    } else if x.is_zero() {
+    let root = if q == 1 {
+        x.clone()
+    } else {
+        use num::integer::Roots;
+        if x.is_negative() && q % 2 == 0 {
+            return Q::Undef;
+        }
+        let (n, d) = (x.numer().abs(), x.denom().clone());
+        let (rn, rd) = (n.nth_root(q), d.nth_root(q));
+        if num::pow(rn.clone(), q as usize) != n || num::pow(rd.clone(), q as usize) != d {
+            return Q::Undef;
+        }
+        let r = BigRational::new(rn, rd);
+        if x.is_negative() {
+            -r
+        } else {
+            r
+        }
+    };
+    if p >= 0 {
+        Q::R(num::pow(root, p as usize))
+    } else if root.is_zero() {
         Q::Undef
     } else {
-        Q::R(num::pow(x.recip(), (-e) as usize))
+        Q::R(num::pow(root.recip(), (-p) as usize))
     }
 }
 impl Num for Q {
